@@ -80,6 +80,254 @@ def _map_block(b, ol, ob):
     return nb
 
 
+def _mentions(obj, l):
+    """Does this statement / terminator JSON mention local `l` (as a place root, an index local or a storage marker)?"""
+    if isinstance(obj, dict):
+        if obj.get("l") == l and ("p" in obj or obj.get("k") in ("dead", "live")):
+            return True
+        if obj.get("idx") == l:
+            return True
+        return any(_mentions(v, l) for v in obj.values())
+    if isinstance(obj, list):
+        return any(_mentions(v, l) for v in obj)
+    return False
+
+
+def _succs(t):
+    out = []
+    if t.get("t") is not None and t["k"] in ("goto", "call", "drop", "assert", "yield"):
+        out.append(t["t"])
+    if t["k"] == "switch":
+        out += [tb for (_, tb) in t["arms"]] + [t["otherwise"]]
+    return out
+
+
+def _subst_locals(obj, m):
+    """Rename locals according to the map m (place roots, index locals, storage markers)."""
+    if isinstance(obj, dict):
+        out = {}
+        for k, v in obj.items():
+            out[k] = _subst_locals(v, m)
+        if out.get("l") in m and ("p" in out or out.get("k") in ("dead", "live")):
+            out["l"] = m[out["l"]]
+        if out.get("idx") in m and not isinstance(out.get("idx"), bool):
+            out["idx"] = m[out["idx"]]
+        return out
+    if isinstance(obj, list):
+        return [_subst_locals(v, m) for v in obj]
+    return obj
+
+
+def _written_locals(b):
+    out = set()
+    for st in b["stmts"]:
+        if st["k"] in ("assign", "setdiscr"):
+            out.add(st["lhs"]["l"])
+    t = b["term"]
+    if t["k"] == "call":
+        out.add(t["dest"]["l"])
+    if t["k"] == "yield":
+        out.add(t["resume_arg"]["l"])
+    return out
+
+
+MAX_REGION = 40
+MAX_THREAD_SITES = 8
+MAX_THREAD_TAIL = 14
+
+
+def _no(n):
+    import os
+    if os.environ.get("XSV_DEBUG_THREAD"):
+        print("thread: refused at check", n)
+    return False
+
+
+def _thread_result_switch(aj, lo, hi, ret_local, dest, target, sp, is_bool=False, call_bb=None):
+    """Jump threading for a helper whose result the caller tests at once (`if helper(..) {`, `match helper(..) {`):
+    instead of joining every `return` of the helper into one result local that the caller's switch reads (a phi the rules cannot
+    interpret, e.g. for `a == x || a == y`), the helper's tail and the caller's switch are cloned per definition of the result,
+    each clone reading a single-definition local.  The spliced CFG is then isomorphic to the one of the un-refactored code.
+    Returns True when done; False (nothing changed) when the shape is not the simple one."""
+    if target is None or dest["p"]:
+        return _no(1)
+    T = aj["blocks"][target]
+    tt = T["term"]
+    simple = tt["k"] == "switch"
+    if simple:
+        pl = tt["d"].get("move") or tt["d"].get("copy")
+        simple = not (pl is None or pl["p"] or pl["l"] != dest["l"]) and not any(_mentions(st, dest["l"]) for st in T["stmts"])
+    if simple:
+        # the result local is read by that switch only
+        for bi, b in enumerate(aj["blocks"]):
+            if bi == target or lo <= bi < hi:
+                continue
+            if any(_mentions(st, dest["l"]) for st in b["stmts"] if st["k"] not in ("dead", "live")) or (b["term"]["k"] != "call" and _mentions(b["term"], dest["l"])) or \
+                    (b["term"]["k"] == "call" and any(_mentions(a, dest["l"]) for a in b["term"]["args"])):
+                simple = False
+                break
+    region = None
+    if not simple:
+        # region mode (bool results kept in a variable: `let expired = helper(x); if expired {..}; !expired`): clone everything
+        # downstream of the call per definition of the result, when that region is small and does not loop back to the call
+        if not is_bool:
+            return _no(2)
+        region, todo = [], [target]
+        while todo:
+            x = todo.pop()
+            if x in region:
+                continue
+            if lo <= x < hi or x == call_bb:
+                return _no(3)
+            region.append(x)
+            if len(region) > MAX_REGION:
+                return _no(4)
+            todo += _succs(aj["blocks"][x]["term"])
+        # the result must not be written again downstream, nor read outside the region
+        for bi, b in enumerate(aj["blocks"]):
+            if lo <= bi < hi or b["cleanup"]:
+                continue
+            w = any(st["k"] == "assign" and st["lhs"]["l"] == dest["l"] for st in b["stmts"]) or (b["term"]["k"] == "call" and b["term"]["dest"]["l"] == dest["l"] and bi != call_bb)
+            if w:
+                return _no(5)
+            if bi not in region and bi != call_bb and (any(_mentions(st, dest["l"]) for st in b["stmts"] if st["k"] not in ("dead", "live")) or _mentions(b["term"], dest["l"])):
+                return _no(5)
+        region_locals = set()
+        for x in region:
+            region_locals |= _written_locals(aj["blocks"][x])
+        region_locals.discard(0)
+        region_locals.discard(dest["l"])
+        for bi, b in enumerate(aj["blocks"]):
+            if bi in region or b["cleanup"]:
+                continue
+            for l in list(region_locals):
+                if any(_mentions(st, l) for st in b["stmts"] if st["k"] not in ("dead", "live")) or _mentions(b["term"], l):
+                    region_locals.discard(l)
+    sites = []
+    for bi in range(lo, hi):
+        b = aj["blocks"][bi]
+        if b["cleanup"]:
+            continue
+        for k, st in enumerate(b["stmts"]):
+            if st["k"] in ("assign", "setdiscr") and st["lhs"]["l"] == ret_local:
+                if st["lhs"]["p"] or st["k"] != "assign" or st.get("inlined_result"):
+                    if st.get("inlined_result"):
+                        continue
+                    return _no(6)
+                sites.append((bi, k))
+        t = b["term"]
+        if t["k"] == "call" and t["dest"]["l"] == ret_local:
+            if t["dest"]["p"]:
+                return _no(7)
+            sites.append((bi, None))
+    if not sites or len(sites) > MAX_THREAD_SITES or len({bi for bi, _ in sites}) != len(sites):
+        return _no(8)
+    site_blocks = {bi for bi, _ in sites}
+    plan = []
+    base = copy.deepcopy(aj["blocks"])
+    for (bi, k) in sites:
+        # blocks of the tail: reachable from the point after the definition
+        start = _succs(base[bi]["term"]) if True else []
+        seen, todo = [], list(start)
+        ok = True
+        while todo:
+            x = todo.pop()
+            if x in seen:
+                continue
+            if not (lo <= x < hi) or x in site_blocks:
+                ok = False   # leaves the helper other than through its return, or reaches another definition
+                break
+            blk = base[x]
+            if blk["term"]["k"] == "call" or any(s2["k"] == "assign" and s2["lhs"]["l"] == ret_local and not s2.get("inlined_result") for s2 in blk["stmts"]):
+                ok = False
+                break
+            seen.append(x)
+            if len(seen) > MAX_THREAD_TAIL:
+                ok = False
+                break
+            if not blk["term"].get("inlined_return"):
+                todo += _succs(blk["term"])
+        if not ok:
+            return _no(9)
+        plan.append((bi, k, seen))
+    # apply
+    for (bi, k, tail) in plan:
+        ret_i = len(aj["locals"])
+        aj["locals"].append(copy.deepcopy(aj["locals"][ret_local]))
+        dest_i = len(aj["locals"])
+        aj["locals"].append(copy.deepcopy(aj["locals"][dest["l"]]))
+        nb0 = len(aj["blocks"])
+        cmap = {x: nb0 + i for i, x in enumerate(tail)}
+        t_i = nb0 + len(tail)
+        for x in tail:
+            c = copy.deepcopy(base[x])
+            t = c["term"]
+            if t.get("inlined_return"):
+                c["stmts"] = [s2 for s2 in c["stmts"] if not s2.get("inlined_result")]
+                c["stmts"].append({"k": "assign", "lhs": {"l": dest_i, "p": []}, "rv": {"use": {"move": {"l": ret_i, "p": []}}}, "sp": sp, "exp": None})
+                t["t"] = t_i
+            else:
+                if t.get("t") is not None:
+                    t["t"] = cmap.get(t["t"], t["t"])
+                if t["k"] == "switch":
+                    t["arms"] = [[v, cmap.get(tb, tb)] for v, tb in t["arms"]]
+                    t["otherwise"] = cmap.get(t["otherwise"], t["otherwise"])
+            aj["blocks"].append(c)
+        if region is None:
+            tc = copy.deepcopy(T)
+            key = "move" if "move" in tc["term"]["d"] else "copy"
+            tc["term"]["d"] = {key: {"l": dest_i, "p": []}}
+            tc["term"]["threaded"] = True
+            aj["blocks"].append(tc)
+        else:
+            rbase = len(aj["blocks"])
+            assert rbase == t_i
+            rmap = {x: rbase + i for i, x in enumerate(region)}   # region[0] == target
+            # every local written inside the region (and unknown outside it) gets its own copy per clone: no artificial phis
+            lmap = {dest["l"]: dest_i}
+            for l in sorted(region_locals):
+                lmap[l] = len(aj["locals"])
+                aj["locals"].append(copy.deepcopy(aj["locals"][l]))
+                for dbg in list(aj["debug"]):
+                    if "l" in dbg["v"] and dbg["v"]["l"] == l and not dbg["v"]["p"] and not dbg.get("cloned"):
+                        aj["debug"].append({"name": dbg["name"], "v": {"l": lmap[l], "p": []}, "arg": None, "cloned": True})
+            for x in region:
+                c = _subst_locals(copy.deepcopy(base[x]), lmap)
+                t = c["term"]
+                if t.get("t") is not None:
+                    t["t"] = rmap.get(t["t"], t["t"])
+                if t["k"] == "switch":
+                    t["arms"] = [[v, rmap.get(tb, tb)] for v, tb in t["arms"]]
+                    t["otherwise"] = rmap.get(t["otherwise"], t["otherwise"])
+                aj["blocks"].append(c)
+        blk = aj["blocks"][bi]
+        if k is None:
+            blk["term"]["dest"] = {"l": ret_i, "p": []}
+            blk["term"]["t"] = cmap[blk["term"]["t"]]
+        else:
+            rest = blk["stmts"][k + 1:]
+            term = blk["term"]
+            d = dict(blk["stmts"][k])
+            d["lhs"] = {"l": ret_i, "p": []}
+            # the remainder of the defining block becomes the first block of the cloned tail
+            c = {"cleanup": False, "stmts": copy.deepcopy(rest), "term": copy.deepcopy(term)}
+            t = c["term"]
+            if t.get("inlined_return"):
+                c["stmts"] = [s2 for s2 in c["stmts"] if not s2.get("inlined_result")]
+                c["stmts"].append({"k": "assign", "lhs": {"l": dest_i, "p": []}, "rv": {"use": {"move": {"l": ret_i, "p": []}}}, "sp": sp, "exp": None})
+                t["t"] = t_i
+            else:
+                if t.get("t") is not None:
+                    t["t"] = cmap.get(t["t"], t["t"])
+                if t["k"] == "switch":
+                    t["arms"] = [[v, cmap.get(tb, tb)] for v, tb in t["arms"]]
+                    t["otherwise"] = cmap.get(t["otherwise"], t["otherwise"])
+            aj["blocks"].append(c)
+            blk["stmts"] = blk["stmts"][:k] + [d]
+            blk["term"] = {"k": "goto", "t": len(aj["blocks"]) - 1, "sp": sp, "exp": None}
+    return True
+
+
 def inline_call(anchor, call_bb, helper):
     """Return a new Body JSON for `anchor` with the call at block `call_bb` to `helper` spliced in."""
     aj = copy.deepcopy(anchor.j)
@@ -100,7 +348,7 @@ def inline_call(anchor, call_bb, helper):
     ret_local = ol   # helper's _0
     for nb in new_blocks:
         if nb["term"]["k"] == "return":
-            nb["stmts"].append({"k": "assign", "lhs": dest, "rv": {"use": {"move": {"l": ret_local, "p": []}}}, "sp": sp, "exp": None})
+            nb["stmts"].append({"k": "assign", "lhs": dest, "rv": {"use": {"move": {"l": ret_local, "p": []}}}, "sp": sp, "exp": None, "inlined_result": True})
             if target is None:
                 nb["term"] = {"k": "unreachable", "sp": sp, "exp": None}
             else:
@@ -111,11 +359,178 @@ def inline_call(anchor, call_bb, helper):
         blk["stmts"].append({"k": "assign", "lhs": {"l": ol + 1 + i, "p": []}, "rv": {"use": a}, "sp": sp, "exp": None})
     blk["term"] = {"k": "goto", "t": ob, "sp": sp, "exp": None, "inlined_call": helper.def_}
     aj["blocks"] = aj["blocks"] + new_blocks
+    is_bool = helper.local_tystr(0) == "bool"
+    threaded = _thread_result_switch(aj, ob, ob + len(new_blocks), ret_local, dest, target, sp, is_bool=is_bool, call_bb=call_bb)
+    if threaded:
+        aj.setdefault("threaded", []).append(helper.def_)
     corr = list(aj.get("corr", []))
     if not dest["p"]:
         corr.append({"ret": ret_local, "dest": dest["l"]})
     aj["corr"] = corr
     aj.setdefault("inlined", []).append(helper.def_)
+    return aj
+
+
+
+def _follow_gotos(blocks, b, limit=6):
+    n = 0
+    while n < limit and not blocks[b]["stmts"] and blocks[b]["term"]["k"] == "goto":
+        b = blocks[b]["term"]["t"]
+        n += 1
+    return b
+
+
+def _await_pattern(blocks, call_bb):
+    """For `helper(args).await` where the call is at call_bb: (ready_block, payload_dest_place) - the block whose first statement
+    moves the `Poll::Ready` payload of this await into a local - or None when the call is not awaited on the spot."""
+    call = blocks[call_bb]["term"]
+    f = call["dest"]
+    if f["p"] or call.get("t") is None:
+        return None
+    b1 = blocks[call["t"]]
+    t1 = b1["term"]
+    if t1["k"] != "call" or t1["fn"] != "core::future::into_future::IntoFuture::into_future" or not t1["args"]:
+        return None
+    a0 = t1["args"][0].get("move")
+    if a0 is None or a0["p"] or a0["l"] != f["l"] or t1["dest"]["p"] or t1.get("t") is None:
+        return None
+    g = t1["dest"]["l"]
+    b2 = blocks[t1["t"]]
+    aw = None
+    for st in b2["stmts"]:
+        if st["k"] == "assign" and not st["lhs"]["p"] and "use" in st["rv"] and (st["rv"]["use"].get("move") or {}).get("l") == g:
+            aw = st["lhs"]["l"]
+    if aw is None or b2["term"]["k"] != "goto":
+        return None
+    # find the poll of this awaitee
+    seen, todo, poll_bb = set(), [b2["term"]["t"]], None
+    refs_aw = False
+    while todo and len(seen) < 12:
+        x = todo.pop()
+        if x in seen:
+            continue
+        seen.add(x)
+        blk = blocks[x]
+        for st in blk["stmts"]:
+            if st["k"] == "assign" and "ref" in st["rv"] and st["rv"]["ref"]["l"] == aw:
+                refs_aw = True
+        t = blk["term"]
+        if t["k"] == "call" and t["fn"] == "core::future::future::Future::poll":
+            poll_bb = x
+            break
+        todo += _succs(t)
+    if poll_bb is None or not refs_aw:
+        return None
+    pt = blocks[poll_bb]["term"]
+    if pt["dest"]["p"] or pt.get("t") is None:
+        return None
+    pr = pt["dest"]["l"]
+    sw = blocks[pt["t"]]
+    if sw["term"]["k"] != "switch":
+        return None
+    ready = None
+    for v, tb in sw["term"]["arms"]:
+        if str(v) == "0":
+            ready = tb
+    if ready is None:
+        return None
+    r = _follow_gotos(blocks, ready)
+    st = blocks[r]["stmts"][0] if blocks[r]["stmts"] else None
+    if not st or st["k"] != "assign" or "use" not in st["rv"]:
+        return None
+    src = st["rv"]["use"].get("move") or st["rv"]["use"].get("copy")
+    if not src or src["l"] != pr or len(src["p"]) != 2 or not isinstance(src["p"][0], dict) or src["p"][0].get("dc") != "Ready":
+        return None
+    return (r, st["lhs"])
+
+
+def _async_shell(shell):
+    """(coroutine def, [shell param index per upvar]) when `shell` is the plain shell of an `async fn`."""
+    live = [b for b in shell.j["blocks"] if not b["cleanup"]]
+    if len(live) != 1 or live[0]["term"]["k"] != "return":
+        return None
+    sts = [st for st in live[0]["stmts"] if st["k"] == "assign"]
+    if len(sts) != 1 or sts[0]["lhs"]["l"] != 0 or sts[0]["rv"].get("agg") != "coroutine":
+        return None
+    params = []
+    for op in sts[0]["rv"].get("ops", []):
+        pl = op.get("copy") or op.get("move")
+        if pl is None or pl["p"] or not (1 <= pl["l"] <= shell.j["argc"]):
+            return None
+        params.append(pl["l"] - 1)
+    return (sts[0]["rv"]["def"], params)
+
+
+def _rewrite_upvars(obj, env_local, arg_locals):
+    """Places rooted at the coroutine's environment `_1.<i>` become places rooted at the local holding argument i."""
+    if isinstance(obj, dict):
+        if obj.get("l") == env_local and isinstance(obj.get("p"), list) and obj["p"] and isinstance(obj["p"][0], dict) and "f" in obj["p"][0] \
+                and obj["p"][0]["f"] < len(arg_locals):
+            return {**{k: _rewrite_upvars(v, env_local, arg_locals) for k, v in obj.items() if k not in ("l", "p")},
+                    "l": arg_locals[obj["p"][0]["f"]], "p": [_rewrite_upvars(e, env_local, arg_locals) for e in obj["p"][1:]]}
+        return {k: _rewrite_upvars(v, env_local, arg_locals) for k, v in obj.items()}
+    if isinstance(obj, list):
+        return [_rewrite_upvars(v, env_local, arg_locals) for v in obj]
+    return obj
+
+
+def inline_async_call(anchor, call_bb, shell, cor, params):
+    """Splice the body of an `async fn` helper that is awaited on the spot into the awaiting coroutine: the helper's coroutine body
+    replaces the whole poll loop, its captured arguments become locals, its `return` writes the value the await evaluates to."""
+    aj = copy.deepcopy(anchor.j)
+    pat = _await_pattern(aj["blocks"], call_bb)
+    if pat is None:
+        return None
+    (rb, payload) = pat
+    hj = cor.j
+    ol = len(aj["locals"])
+    ob = len(aj["blocks"])
+    call = aj["blocks"][call_bb]["term"]
+    sp = call["sp"]
+    aj["locals"] = aj["locals"] + copy.deepcopy(hj["locals"])
+    # one local per captured argument
+    arg_locals = []
+    for i, pi in enumerate(params):
+        arg_locals.append(len(aj["locals"]))
+        # type is unknown here (the upvar's type): reuse the caller operand's local type when it is a plain local, else the env type
+        op = call["args"][pi]
+        pl = op.get("move") or op.get("copy")
+        ty = aj["locals"][pl["l"]]["ty"] if pl is not None and not pl["p"] else hj["locals"][1]["ty"]
+        aj["locals"].append({"ty": ty, "mut": False, "user": True})
+    for d in hj["debug"]:
+        v = d["v"]
+        if "l" not in v:
+            continue
+        if v["l"] == 1 and v["p"] and isinstance(v["p"][0], dict) and "f" in v["p"][0] and v["p"][0]["f"] < len(arg_locals):
+            aj["debug"].append({"name": d["name"], "v": {"l": arg_locals[v["p"][0]["f"]], "p": v["p"][1:]}, "arg": None})
+        elif v["l"] > 2:
+            aj["debug"].append({"name": d["name"], "v": _map_place(v, ol), "arg": None})
+    new_blocks = [_rewrite_upvars(_map_block(b, ol, ob), ol + 1, arg_locals) for b in hj["blocks"]]
+    ret_local = ol
+    # continuation: the rest of the Ready block after the payload move
+    R = aj["blocks"][rb]
+    cont = {"cleanup": False, "stmts": copy.deepcopy(R["stmts"][1:]), "term": copy.deepcopy(R["term"])}
+    cont_idx = ob + len(new_blocks)
+    for nb in new_blocks:
+        if nb["term"]["k"] == "return":
+            nb["stmts"].append({"k": "assign", "lhs": payload, "rv": {"use": {"move": {"l": ret_local, "p": []}}}, "sp": sp, "exp": None, "inlined_result": True})
+            nb["term"] = {"k": "goto", "t": cont_idx, "sp": sp, "exp": None, "inlined_return": True}
+        elif nb["term"]["k"] == "cordrop":
+            nb["term"] = {"k": "unreachable", "sp": sp, "exp": None}
+    blk = aj["blocks"][call_bb]
+    for i, pi in enumerate(params):
+        blk["stmts"].append({"k": "assign", "lhs": {"l": arg_locals[i], "p": []}, "rv": {"use": call["args"][pi]}, "sp": sp, "exp": None})
+    # the helper's task context is the caller's
+    tc = [d["v"]["l"] for d in aj["debug"] if d["name"] == "_task_context" and d.get("arg") is not None and "l" in d["v"]]
+    if tc:
+        blk["stmts"].append({"k": "assign", "lhs": {"l": ol + 2, "p": []}, "rv": {"use": {"copy": {"l": tc[0], "p": []}}}, "sp": sp, "exp": None})
+    blk["term"] = {"k": "goto", "t": ob, "sp": sp, "exp": None, "inlined_call": cor.def_}
+    aj["blocks"] = aj["blocks"] + new_blocks + [cont]
+    corr = list(aj.get("corr", []))
+    if not payload["p"]:
+        corr.append({"ret": ret_local, "dest": payload["l"]})
+    aj["corr"] = corr
+    aj.setdefault("inlined", []).append(shell.def_)
     return aj
 
 
@@ -154,8 +569,19 @@ def _module(def_path):
 
 MAX_SITES = 6
 # helper families the rules treat as units (responders build the HTTP answer: their own `?` must not appear inside api::handle)
-ROLE_PREFIXES = ("xs::api::response_",)
+ROLE_PREFIXES = ("xs::api::response_", "xs::api::handle_")
 MAX_HELPER_BLOCKS = 60
+
+
+def _is_key_constructor_site(b, c):
+    from .facts import walk
+    for u in b.calls():
+        if u.fn.startswith("fjall::") and u.bb in b.live_blocks():
+            for a in u.arg_exprs():
+                for y in walk(a):
+                    if y[0] == "call" and y[1].body is c.body and y[1].bb == c.bb:
+                        return True
+    return False
 
 
 def single_caller_helpers(facts, anchors, pinned):
@@ -187,9 +613,19 @@ def single_caller_helpers(facts, anchors, pinned):
             continue
         if any(cc.fn == fn for cc in h.calls()):
             continue   # recursive
+        if any(_is_key_constructor_site(b, c) for (b, c) in ss):
+            continue   # role: key constructor (its result is the key / prefix / bound of a fjall operation): rules compare those by callee
         rets = h.return_defs()
         if len(rets) == 1 and rets[0][1][0] == "agg" and rets[0][1][1].get("agg") in ("coroutine", "closure"):
-            continue   # async fn shell
+            # async fn shell: spliced only when every call is awaited on the spot inside an anchor coroutine
+            sh = _async_shell(h)
+            cor = facts.body(sh[0]) if sh else None
+            if cor is None or not cor.is_coroutine or len(cor.blocks) > 4 * MAX_HELPER_BLOCKS:
+                continue
+            if all(b.is_coroutine and _await_pattern(b.j["blocks"], c.bb) is not None for (b, c) in ss):
+                for (b, c) in ss:
+                    out.append((b, c.bb, (h, cor, sh[1])))
+            continue
         for (b, c) in ss:
             out.append((b, c.bb, h))
     return out
@@ -205,13 +641,25 @@ def apply(facts, anchors, pinned):
         # one call site per anchor per round (block indices shift only by appending, so several are fine too)
         for (b, bb, h) in cands:
             cur = facts.body(b.def_)
-            nj = inline_call(cur, bb, h)
+            cor = None
+            if isinstance(h, tuple):
+                (h, cor, params) = h
+                nj = inline_async_call(cur, bb, h, cor, params)
+                if nj is None:
+                    continue
+            else:
+                nj = inline_call(cur, bb, h)
             nb = Body(cur.crate, nj)
             cur.crate.bodies[nb.def_] = nb
             cur.crate.body_list[cur.crate.body_list.index(cur)] = nb
             h.hidden = True
             done.append((b.def_, h.def_))
+            if cor is not None:
+                cor.hidden = True
+                done.append((b.def_, cor.def_))
             facts.inlined = done
             if hasattr(anchors, "adopt"):
                 anchors.adopt(h.def_)
+                if cor is not None:
+                    anchors.adopt(cor.def_)
     return done
